@@ -112,6 +112,8 @@ pub struct OpRec {
     pub dropped_at: AtomicU64,
     /// stamp taken just before the returned future was polled for the first time
     pub polled_at:  AtomicU64,
+    /// issued through the scheduler-level API (free functions / `Scheduler::after` / deprecated aliases) instead of `Desync`'s methods
+    pub via_raw:    AtomicBool,
 }
 
 impl OpRec {
@@ -119,7 +121,7 @@ impl OpRec {
         OpRec { inv: AtomicU64::new(0), ret: AtomicU64::new(0), start: AtomicU64::new(0), end: AtomicU64::new(0), resolve: AtomicU64::new(0),
                 runs: AtomicU32::new(0), pendings: AtomicU32::new(0), runner: AtomicU32::new(0), run_tid: AtomicU64::new(0), call_tid: AtomicU64::new(0),
                 outcome: AtomicU32::new(0), accepted: AtomicBool::new(false), wait_polls: AtomicU32::new(0), cancelled: AtomicBool::new(false),
-                dropped_at: AtomicU64::new(0), polled_at: AtomicU64::new(0) }
+                dropped_at: AtomicU64::new(0), polled_at: AtomicU64::new(0), via_raw: AtomicBool::new(false) }
     }
 }
 
@@ -357,6 +359,7 @@ impl RunCtx {
 /// crate - and is exactly what the aliasing model of Miri, ASan and TSan look at when two operations overlap.
 struct PayloadPtr(*mut Payload);
 unsafe impl Send for PayloadPtr {}
+unsafe impl Sync for PayloadPtr {}
 
 struct HeapPtr(*mut u64);
 unsafe impl Send for HeapPtr {}
@@ -553,6 +556,19 @@ fn pause(ctx: &RunCtx) {
 }
 
 /// Drops an owner of an object (possibly the last one, in which case Desync::drop runs here)
+/// Every fourth operation goes through the scheduler-level API (the free functions of `desync::scheduler` and
+/// `Scheduler::after` on the object's job queue, plus the deprecated aliases `Desync::async` / `Desync::future`) instead of the
+/// methods of `Desync`: the properties speak of "a Desync (or job queue)", and `Scheduler::after` is code that `Desync::after`
+/// never reaches. The closure dereferences the same pointer that `Desync` itself hands to its operations (hook accessor).
+#[cfg(feature = "hooks")]
+pub fn via_scheduler(ctx: &RunCtx, op: OpId) -> bool { mix(ctx.prog.run_seed ^ 0x5c4ed ^ ((op as u64) << 9)) % 4 == 0 }
+#[cfg(not(feature = "hooks"))]
+pub fn via_scheduler(_ctx: &RunCtx, _op: OpId) -> bool { false }
+
+/// The queue of an object and the pointer to its value, for operations issued through the scheduler-level API
+#[cfg(feature = "hooks")]
+fn raw_parts(d: &Obj) -> (Arc<desync::scheduler::JobQueue>, PayloadPtr) { (Arc::clone(d.verif_queue()), PayloadPtr(d.verif_data())) }
+
 pub fn drop_owner(ctx: &RunCtx, op: OpId, owner: Arc<Obj>) {
     let _b = ctx.blocked(op, PH_DROPOBJ);
     std::mem::drop(owner);
@@ -593,15 +609,35 @@ pub fn issue_future<'d>(ctx: &Arc<RunCtx>, op: OpId, d: &'d Obj) -> ResFut<'d> {
     rec.inv.store(clock(), ORD);
     let fut: ResFut<'d> = {
         let _b = ctx.blocked(op, PH_CALL);
-        match def.kind {
-            Kind::FutDesync => Box::pin(d.future_desync(move |p| future_body(c2, op, p))),
-            Kind::After => {
+        #[cfg(feature = "hooks")]
+        let raw = if via_scheduler(ctx, op) { rec.via_raw.store(true, ORD); Some(raw_parts(d)) } else { None };
+        #[cfg(not(feature = "hooks"))]
+        let raw: Option<((), ())> = None;
+        match (def.kind, raw) {
+            #[cfg(feature = "hooks")]
+            (Kind::FutDesync, Some((q, ptr))) => {
+                if op % 2 == 0 { Box::pin(desync::scheduler::future_desync(&q, move || { let ptr = ptr; future_body(c2, op, unsafe { &mut *ptr.0 }) })) }
+                else { #[allow(deprecated)] let f = d.future(move |p| future_body(c2, op, p)); Box::pin(f) }
+            }
+            #[cfg(feature = "hooks")]
+            (Kind::After, Some((q, ptr))) => {
+                let g = def.gate.expect("after needs a gate");
+                let gf = GateFut { gate: Arc::clone(&ctx.gates[g]), ctx: Arc::clone(ctx), op, registered: false };
+                Box::pin(desync::scheduler::scheduler().after(&q, gf, move |_| { let ptr = ptr; closure_body(&c2, op, unsafe { &mut *ptr.0 }) }))
+            }
+            #[cfg(feature = "hooks")]
+            // (the body is wrapped the way Desync::future_sync wraps it, so that it is destroyed the moment it completes: the
+            // scheduler-level function keeps a completed future object until the returned future goes away, which is within the
+            // statement of C01 - "until the future completes or is dropped" - but not what a `Retain` body assumes)
+            (Kind::FutSync, Some((q, ptr))) => Box::pin(desync::scheduler::future_sync(&q, move || { let ptr = ptr; let f = future_body(c2, op, unsafe { &mut *ptr.0 }); async move { f.await } })),
+            (Kind::FutDesync, _) => Box::pin(d.future_desync(move |p| future_body(c2, op, p))),
+            (Kind::After, _) => {
                 let g = def.gate.expect("after needs a gate");
                 let gf = GateFut { gate: Arc::clone(&ctx.gates[g]), ctx: Arc::clone(ctx), op, registered: false };
                 Box::pin(d.after(gf, move |p, _| closure_body(&c2, op, p)))
             }
-            Kind::FutSync => Box::pin(d.future_sync(move |p| future_body(c2, op, p))),
-            other => panic!("harness bug: issue_future on {:?}", other),
+            (Kind::FutSync, _) => Box::pin(d.future_sync(move |p| future_body(c2, op, p))),
+            (other, _) => panic!("harness bug: issue_future on {:?}", other),
         }
     };
     rec.ret.store(clock(), ORD);
@@ -619,7 +655,20 @@ fn issue_simple(ctx: &Arc<RunCtx>, op: OpId, d: &Obj) {
             rec.call_tid.store(tid_hash(), ORD);
             rec.accepted.store(true, ORD);
             rec.inv.store(clock(), ORD);
-            { let _b = ctx.blocked(op, PH_CALL); d.desync(move |p| { closure_body(&c2, op, p); }); }
+            {
+                let _b = ctx.blocked(op, PH_CALL);
+                #[cfg(feature = "hooks")]
+                {
+                    if via_scheduler(ctx, op) {
+                        rec.via_raw.store(true, ORD);
+                        let (q, ptr) = raw_parts(d);
+                        if op % 2 == 0 { desync::scheduler::desync(&q, move || { let ptr = ptr; closure_body(&c2, op, unsafe { &mut *ptr.0 }); }); }
+                        else { #[allow(deprecated)] d.r#async(move |p| { closure_body(&c2, op, p); }); }
+                    } else { d.desync(move |p| { closure_body(&c2, op, p); }); }
+                }
+                #[cfg(not(feature = "hooks"))]
+                d.desync(move |p| { closure_body(&c2, op, p); });
+            }
             rec.ret.store(clock(), ORD);
             ctx.note_for_firer();
         }
@@ -629,6 +678,14 @@ fn issue_simple(ctx: &Arc<RunCtx>, op: OpId, d: &Obj) {
             // a value on the caller's stack that the closure borrows and mutates: must only be touched between call and return
             let mut frame: [u64; 4] = [CANARY, 0, 0, CANARY];
             rec.inv.store(clock(), ORD);
+            #[cfg(feature = "hooks")]
+            let v = { let _b = ctx.blocked(op, PH_CALL);
+                if via_scheduler(ctx, op) {
+                    rec.via_raw.store(true, ORD);
+                    let (q, ptr) = raw_parts(d);
+                    desync::scheduler::sync(&q, || { let ptr = &ptr; frame[1] = frame[1].wrapping_add(1); let v = closure_body(&c2, op, unsafe { &mut *ptr.0 }); frame[2] = v; v })
+                } else { d.sync(|p| { frame[1] = frame[1].wrapping_add(1); let v = closure_body(&c2, op, p); frame[2] = v; v }) } };
+            #[cfg(not(feature = "hooks"))]
             let v = { let _b = ctx.blocked(op, PH_CALL); d.sync(|p| { frame[1] = frame[1].wrapping_add(1); let v = closure_body(&c2, op, p); frame[2] = v; v }) };
             rec.ret.store(clock(), ORD);
             ctx.note_for_firer();
@@ -645,6 +702,14 @@ fn issue_simple(ctx: &Arc<RunCtx>, op: OpId, d: &Obj) {
             rec.call_tid.store(tid_hash(), ORD);
             let mut frame: [u64; 3] = [CANARY, 0, CANARY];
             rec.inv.store(clock(), ORD);
+            #[cfg(feature = "hooks")]
+            let r = { let _b = ctx.blocked(op, PH_CALL);
+                if via_scheduler(ctx, op) {
+                    rec.via_raw.store(true, ORD);
+                    let (q, ptr) = raw_parts(d);
+                    desync::scheduler::try_sync(&q, || { let ptr = &ptr; frame[1] += 1; closure_body(&c2, op, unsafe { &mut *ptr.0 }) })
+                } else { d.try_sync(|p| { frame[1] += 1; closure_body(&c2, op, p) }) } };
+            #[cfg(not(feature = "hooks"))]
             let r = { let _b = ctx.blocked(op, PH_CALL); d.try_sync(|p| { frame[1] += 1; closure_body(&c2, op, p) }) };
             rec.ret.store(clock(), ORD);
             ctx.note_for_firer();
@@ -747,6 +812,12 @@ fn sync_wait(ctx: &Arc<RunCtx>, op: OpId, d: &Obj) {
     let c2 = Arc::clone(ctx);
     rec.inv.store(clock(), ORD);
     let sf = { let _b = ctx.blocked(op, PH_CALL); match def.kind {
+        #[cfg(feature = "hooks")]
+        Kind::FutDesync if via_scheduler(ctx, op) => {
+            rec.via_raw.store(true, ORD);
+            let (q, ptr) = raw_parts(d);
+            desync::scheduler::future_desync(&q, move || { let ptr = ptr; future_body(c2, op, unsafe { &mut *ptr.0 }) })
+        }
         Kind::FutDesync => d.future_desync(move |p| future_body(c2, op, p)),
         other => panic!("harness bug: sync_wait on {:?}", other),
     } };
@@ -839,7 +910,7 @@ pub fn run_thread(ctx: &Arc<RunCtx>, acts: Vec<TAct>, mortal: Option<Arc<Obj>>) 
                     let fut = h.fut.take().unwrap();
                     let obj = ctx.prog.ops[op].obj;
                     let r = std::panic::catch_unwind(std::panic::AssertUnwindSafe(|| { let _b = ctx.blocked(op, PH_ATTEMPT); let mut fut = fut; block_on_with(fut.as_mut(), |_| {}) }));
-                    attempt_result(ctx, 6, obj, r.is_err(), false);
+                    attempt_result(ctx, 12, obj, r.is_err(), false);
                 }
             }
         }
@@ -869,14 +940,29 @@ fn attempt(ctx: &Arc<RunCtx>, kind: u8, obj: usize) {
             2 => { let _ = d.try_sync(|_| { r2.store(true, Ordering::SeqCst); }); }
             3 => { d.future_desync(move |_| async move { r2.store(true, Ordering::SeqCst); }.boxed()).detach(); }
             4 => { let f = d.after(futures::future::ready(()), move |_, _| { r2.store(true, Ordering::SeqCst); }); std::mem::drop(f); }
-            _ => { let f = d.future_sync(move |_| async move { r2.store(true, Ordering::SeqCst); }.boxed()); let mut f = Box::pin(f); let _ = block_on_with(f.as_mut(), |_| {}); }
+            5 => { let f = d.future_sync(move |_| async move { r2.store(true, Ordering::SeqCst); }.boxed()); let mut f = Box::pin(f); let _ = block_on_with(f.as_mut(), |_| {}); }
+            // the scheduler-level entry points on the object's queue (separate code from the methods of Desync)
+            #[cfg(feature = "hooks")]
+            6 => { let f = desync::scheduler::scheduler().after(d.verif_queue(), futures::future::ready(()), move |_| { r2.store(true, Ordering::SeqCst); }); std::mem::drop(f); }
+            #[cfg(feature = "hooks")]
+            7 => { let f = desync::scheduler::scheduler().suspend(d.verif_queue()); std::mem::drop(f); }
+            #[cfg(feature = "hooks")]
+            8 => { desync::scheduler::desync(d.verif_queue(), move || { r2.store(true, Ordering::SeqCst); }); }
+            #[cfg(feature = "hooks")]
+            9 => { let f = desync::scheduler::future_sync(d.verif_queue(), move || async move { r2.store(true, Ordering::SeqCst); }); let mut f = Box::pin(f); let _ = block_on_with(f.as_mut(), |_| {}); }
+            // a pipe into the panicked object: creating it schedules the first read on the object
+            10 => { let input = futures::stream::iter(vec![1u64, 2, 3]); desync::pipe_in(Arc::clone(&d), input, move |_, _| { r2.store(true, Ordering::SeqCst); futures::future::ready(()).boxed() }); }
+            _ => { let input = futures::stream::iter(vec![1u64, 2, 3]); let out = desync::pipe(Arc::clone(&d), input, move |_, v| { r2.store(true, Ordering::SeqCst); futures::future::ready(v).boxed() }); std::mem::drop(out); }
         }
     }));
     attempt_result(ctx, kind, obj, r.is_err(), ran.load(Ordering::SeqCst));
 }
 
+pub const ATTEMPT_NAMES: [&str; 13] = ["desync", "sync", "try_sync", "future_desync", "after", "future_sync", "scheduler_after", "suspend", "scheduler_desync", "scheduler_future_sync",
+                               "pipe_in", "pipe", "await_of_earlier_future"];
+
 fn attempt_result(ctx: &RunCtx, kind: u8, obj: usize, failed_loudly: bool, ran: bool) {
-    const NAMES: [&str; 7] = ["desync", "sync", "try_sync", "future_desync", "after", "future_sync", "await_of_earlier_future"];
+    use self::ATTEMPT_NAMES as NAMES;
     ctx.attempts.lock().unwrap().push((kind, obj, failed_loudly));
     if !failed_loudly || ran {
         let how = panic_context(ctx, obj);
